@@ -147,20 +147,49 @@ class HeaderRun:
         return self
 
 
+def _fold_int(e):
+    """integer value of a constant expression (literals combined with + - * ** << >> | &), else None"""
+    if isinstance(e, ast.Constant) and isinstance(e.value, int) and not isinstance(e.value, bool):
+        return e.value
+    if isinstance(e, ast.UnaryOp) and isinstance(e.op, ast.USub):
+        v = _fold_int(e.operand)
+        return -v if v is not None else None
+    if isinstance(e, ast.BinOp):
+        l, r = _fold_int(e.left), _fold_int(e.right)
+        if l is None or r is None:
+            return None
+        try:
+            if isinstance(e.op, ast.Add):
+                return l + r
+            if isinstance(e.op, ast.Sub):
+                return l - r
+            if isinstance(e.op, ast.Mult):
+                return l * r
+            if isinstance(e.op, ast.Pow) and 0 <= r <= 128:
+                return l ** r
+            if isinstance(e.op, ast.LShift) and 0 <= r <= 128:
+                return l << r
+            if isinstance(e.op, ast.RShift) and r >= 0:
+                return l >> r
+            if isinstance(e.op, ast.BitOr):
+                return l | r
+            if isinstance(e.op, ast.BitAnd):
+                return l & r
+        except (OverflowError, ValueError):
+            return None
+    return None
+
+
 def _ext_compare_constants(fn):
-    """All constants `frame_payload_len` is compared with; error if compared with a non-constant."""
-    consts = set()
+    """Every integer constant (folded) that occurs in a comparison of the function: the boundaries at which its judgement of a length can
+    change.  A superset is harmless (more boundary classes are compared with the RFC), so no variable name is involved."""
+    consts = {126, 65536, 2 ** 63}
     for n in walk_no_defs(fn.node):
         if isinstance(n, ast.Compare):
-            terms = [n.left] + list(n.comparators)
-            if any(isinstance(t, ast.Name) and t.id == "frame_payload_len" for t in terms):
-                for t in terms:
-                    if isinstance(t, ast.Name) and t.id == "frame_payload_len":
-                        continue
-                    if isinstance(t, ast.Constant) and isinstance(t.value, int):
-                        consts.add(t.value)
-                    else:
-                        raise AnalysisError(f"frame_payload_len compared with non-constant {ast.unparse(t)}")
+            for t in [n.left] + list(n.comparators):
+                v = _fold_int(t)
+                if v is not None and 0 <= v <= 2 ** 64:
+                    consts.add(v)
     return consts
 
 
@@ -299,12 +328,12 @@ def rule_close_payload(ctx):
     # the test whose true branch calls _protocol_violation
     tests = []
     for n in g.stmt_nodes():
-        if n.kind == "test" and "code" in norm.mentions_of(n.ast) and not any(isinstance(c, ast.Call) for c in ast.walk(n.ast)):
+        if n.kind == "test" and ocf.params()[1] in norm.mentions_of(n.ast) and not any(isinstance(c, ast.Call) for c in ast.walk(n.ast)):
             tb = [m for m, lab in n.succ if lab and lab[0] == "T"]
             if any(any(self_call(c, "_protocol_violation") for c in node_calls(m)) for m in tb):
                 tests.append(n)
     ctx.require(len(tests) == 1, f"expected exactly one invalid-close-code test in onCloseFrame, found {len(tests)}")
-    pred = compile_predicate(tests[0].ast, "code", res)
+    pred = compile_predicate(tests[0].ast, ocf.params()[1], res)
     bad = [c for c in range(0, 65536) if pred(c) == rfc6455.close_code_valid_reference(c, aset)]
     ctx.ob("onCloseFrame invalid-code predicate == RFC 7.4.2 over 0..65535", not bad,
            f"{len(bad)} codes judged wrongly, e.g. {bad[:6]}", ocf.loc(tests[0].ast))
@@ -314,105 +343,115 @@ def rule_close_payload(ctx):
     except TypeError:
         none_bad = True
     ctx.ob("empty close payload (code None) accepted", none_bad is False, "code None is treated as invalid or crashes the predicate", ocf.loc(tests[0].ast))
-    # reason validation: both validator flags required
-    rt = [n for n in g.stmt_nodes() if n.kind == "test" and any(
-        any(self_call(c, "_invalid_payload") for c in node_calls(m)) for m, lab in n.succ if lab and lab[0] == "T")]
-    ctx.require(len(rt) == 1, "close-reason UTF-8 test not found in onCloseFrame")
-    # semantics of that test, independent of local names: with V = <validator>.validate(<raw reason>), the reason is refused
-    # iff not (V[0] and V[1])
-    from ..core.terms import TermEval, eval_bool, subterms, show
-    te = TermEval(ctx.program, ocf, inline=lambda c, f: None).run()
-    inv = [(conds, t) for conds, t, st in te.effects if t[0] == "m" and t[1] == ("p", "self") and t[2] == "_invalid_payload"] + \
-          [(o.conds, o.term) for o in te.outcomes if o.term[0] == "m" and o.term[2] == "_invalid_payload"]
-    inv += [(conds, c) for conds, t, st in te.effects for c in subterms(t) if c[0] == "m" and c[2] == "_invalid_payload" and c is not t]
-    for o in te.outcomes:
-        for cnd, pl in o.conds:
-            for c in subterms(cnd):
-                if c[0] == "m" and c[1] == ("p", "self") and c[2] == "_invalid_payload":
-                    inv.append((o.conds[:[x[0] for x in o.conds].index(cnd)], c))
-    ctx.require(bool(inv), "onCloseFrame: _invalid_payload call not found by the term extraction")
-    conds = inv[0][0]
-    raw = ("p", ocf.params()[2])
+    # ---- the validation prefix of onCloseFrame, decided cell-wise -------------------------------------------------------------
+    # over (status code absent / legal / reserved) x (reason absent / present) x (validator verdict: valid?, ends on a code point?) x
+    # (what the two failure sinks answer: True = connection dropped at once, False = closing handshake started)
+    from ..core.tiny import Tiny, Sym, Buf, TinyRaise
+    import itertools
+    body = [x for x in ocf.node.body if not (isinstance(x, ast.Expr) and isinstance(x.value, ast.Constant))]
+    P_CODE, P_RAW = ocf.params()[1], ocf.params()[2]
+    NORMAL = ctx.program.class_const(wsp, "CLOSE_STATUS_CODE_NORMAL")
 
-    def is_V(t):
-        return t[0] == "m" and t[2] == "validate" and t[3] and t[3][0] == raw
-
-    def flag_index(t):
-        # V[k] or V[:n][k]
-        if t[0] == "idx" and t[2][0] == "c" and isinstance(t[2][1], int):
-            b = t[1]
-            if is_V(b) or (b[0] == "slice" and is_V(b[1]) and b[2] in (("c", None), ("c", 0))):
-                return t[2][1]
-        return None
-    ok = True
-    why = ""
+    def reads_state(st):
+        return any(isinstance(x, ast.Attribute) and norm.text(x) == "self.state" for x in ast.walk(st))
+    probs, cells = [], 0
     try:
-        for a in (False, True):
-            for b in (False, True):
-                def atom(t, a=a, b=b):
-                    k = flag_index(t)
-                    return (a if k == 0 else b if k == 1 else None) if k is not None else None
-                reached = all(eval_bool(c, atom) == pl for c, pl in conds if any(flag_index(x) is not None for x in subterms(c)))
-                if reached != (not (a and b)):
-                    ok = False
-                    why = f"with validator flags (valid={a}, ends on code point={b}) the reason is {'refused' if reached else 'accepted'}"
-        used = any(flag_index(x) is not None for c, pl in conds for x in subterms(c))
-        ok = ok and used
+        for code, has_reason, v0, v1, pv, ip in itertools.product((None, 1000, 3000, 999, 1005, 5000), (False, True), (True, False), (True, False), (True, False), (True, False)):
+            if not has_reason and not (v0 and v1):
+                continue
+            cells += 1
+            sinks, validated = [], []
+            raw = Sym("raw-reason", methods={"decode": lambda *a_: Sym("decoded-reason")}) if has_reason else None
+            validator = Sym("validator", methods={"validate": lambda x: (validated.append(x), [v0, v1, 0, 0])[1], "reset": lambda: None})
+
+            def default(f_, a_, k_=None):
+                if f_ == "self._protocol_violation":
+                    sinks.append("protocol")
+                    return pv
+                if f_ == "self._invalid_payload":
+                    sinks.append("payload")
+                    return ip
+                if f_.endswith("Utf8Validator"):
+                    return validator
+                return Sym(f"<{f_}>")
+            env = {"self": Sym("protocol"), P_CODE: code, P_RAW: raw, "WebSocketProtocol.CLOSE_STATUS_CODES_ALLOWED": list(allowed),
+                   "WebSocketProtocol.CLOSE_STATUS_CODE_NORMAL": NORMAL, "self.remoteCloseCode": "stale", "self.remoteCloseReason": "stale"}
+            t = Tiny(env, default_call=default)
+            r = t.run(body, stop=reads_state)
+            bad_code = code is not None and not rfc6455.close_code_valid_reference(code, aset)
+            cell = (f"status code {code}, reason {'present' if has_reason else 'absent'}" + (f" (validator says valid={v0}, ends on a code point={v1})" if has_reason else "") +
+                    f", failure sinks answer protocol={pv} payload={ip}")
+            want_sinks, want_ret = [], None
+            if bad_code:
+                want_sinks.append("protocol")
+                if pv:
+                    want_ret = True
+            bad_reason = has_reason and not (v0 and v1)
+            if want_ret is None and bad_reason:
+                want_sinks.append("payload")
+                if ip:
+                    want_ret = True
+            if sinks != want_sinks:
+                probs.append(f"{cell}: failures reported {sinks or 'none'}, expected {want_sinks or 'none'}")
+                continue
+            if want_ret:
+                if not (r[0] == "return" and r[1] is True):
+                    probs.append(f"{cell}: processing continues ({r[0]} {r[1]}) although the connection was failed by dropping")
+                continue
+            if r[0] != "stop":
+                probs.append(f"{cell}: {r[0]} {str(r[1])[:60]} before the state handling is reached")
+                continue
+            wc = NORMAL if bad_code else code
+            if t.env.get("self.remoteCloseCode") != wc:
+                probs.append(f"{cell}: remembered close code {t.env.get('self.remoteCloseCode')}, expected {wc}")
+            rr = t.env.get("self.remoteCloseReason")
+            if has_reason and not bad_reason:
+                if not (isinstance(rr, Sym) and rr.name == "decoded-reason") or validated != [raw]:
+                    probs.append(f"{cell}: remembered reason {rr} (validator ran on {validated}), expected the decoded raw reason after validating it")
+            elif rr is not None:
+                probs.append(f"{cell}: remembered reason {rr}, expected none")
+        ctx.ob(f"onCloseFrame: reserved codes are protocol violations; the reason must be valid UTF-8 AND end on a code point (validator run on the raw reason), "
+               f"else invalid payload; nothing of a refused frame is remembered [{cells} cells]", not probs, "; ".join(probs[:2]), ocf.loc())
     except AnalysisError as e:
-        ok, why = False, str(e)
-    ctx.ob("close reason must be valid UTF-8 AND end on a code point (validator run on the raw reason)", ok,
-           why or "the refusal does not depend on <validator>.validate(raw reason)[0] and [1]", ocf.loc(rt[0].ast))
-    # processControlFrame: split of the close payload
+        raise AnalysisError(f"[C02.2-close-payload] onCloseFrame outside the modelled subset: {e}")
+    # ---- processControlFrame: split of the close payload, cell-wise over its length ---------------------------------------------
     pcf = wsp.methods.get("processControlFrame")
     ctx.analysed(pcf)
-    g2, mf2, res2 = an.get(pcf)
-    from ..core.flow import local_assignments
+    body = [x for x in pcf.node.body if not (isinstance(x, ast.Expr) and isinstance(x.value, ast.Constant))]
+    probs = []
+    try:
+        for ll, answer in itertools.product((0, 1, 2, 3, 9), (True, False)):
+            seen = []
 
-    def unpack_of(v):
-        # struct.unpack("!H", X[0:2])[0] / int.from_bytes(X[:2], "big") -> X
-        for c in ast.walk(v):
-            if isinstance(c, ast.Call) and norm.text(c.func) == "struct.unpack" and len(c.args) == 2 and isinstance(c.args[0], ast.Constant) and \
-                    c.args[0].value in ("!H", ">H") and isinstance(c.args[1], ast.Subscript) and isinstance(c.args[1].slice, ast.Slice):
-                sl = c.args[1].slice
-                lo = 0 if sl.lower is None else getattr(sl.lower, "value", None)
-                hi = getattr(sl.upper, "value", None)
-                if (lo, hi) == (0, 2):
-                    return norm.text(c.args[1].value)
-        return None
-    code_nodes = [n for n in g2.stmt_nodes() if n.kind == "stmt" and isinstance(n.ast, ast.Assign) and unpack_of(n.ast.value) is not None]
-    ctx.require(len(code_nodes) == 1, "processControlFrame: status code extraction (2 octets, network order) not found")
-    cn = code_nodes[0]
-    X = unpack_of(cn.ast.value)
-    code_var = norm.text(cn.ast.targets[0])
-    reason_nodes = [n for n in g2.stmt_nodes() if n.kind == "stmt" and isinstance(n.ast, ast.Assign) and isinstance(n.ast.value, ast.Subscript)
-                    and norm.text(n.ast.value.value) == X and isinstance(n.ast.value.slice, ast.Slice) and n.ast.value.slice.upper is None]
-    ctx.require(len(reason_nodes) == 1, "processControlFrame: close reason slice not found")
-    rn = reason_nodes[0]
-    reason_var = norm.text(rn.ast.targets[0])
-
-    def len_more_than(facts, k):
-        """facts imply len(X) > k (through a local holding len(X) or directly)."""
-        names = {f"len({X})"}
-        for st in walk_no_defs(pcf.node):
-            if isinstance(st, ast.Assign) and isinstance(st.targets[0], ast.Name) and norm.text(st.value) == f"len({X})" and len(local_assignments(pcf, st.targets[0].id)) == 1:
-                names.add(st.targets[0].id)
-        for f in facts or ():
-            if f[0] == "lt" and f[1][0] == "c" and f[2][0] == "e" and f[2][1] in names and f[3] and f[1][1] >= k:
-                return True
-            if f[0] == "lt" and f[1][0] == "e" and f[1][1] in names and f[2][0] == "c" and not f[3] and f[2][1] >= k + 1:
-                return True
-        return False
-    ctx.ob("status code read only when the close payload has > 1 octets", len_more_than(mf2.at(cn), 1),
-           "code extracted without a guard that the payload has at least 2 octets", pcf.loc(cn.ast))
-    ctx.ob("status code is the first two octets, network order", True, "", pcf.loc(cn.ast))
-    ctx.ob("reason read only when the close payload has > 2 octets", len_more_than(mf2.at(rn), 2),
-           "reason extracted without a guard that the payload has more than 2 octets", pcf.loc(rn.ast))
-    lo = rn.ast.value.slice.lower
-    ctx.ob("reason is everything after the two status octets", isinstance(lo, ast.Constant) and lo.value == 2, f"{reason_var} = {norm.text(rn.ast.value)}", pcf.loc(rn.ast))
-    calls = [(n, c) for n in g2.stmt_nodes() for c in node_calls(n) if self_call(c, "onCloseFrame")]
-    ok = len(calls) == 1 and [norm.text(a) for a in calls[0][1].args] == [code_var, reason_var] and \
-        ("eq", "self.current_frame.opcode", ("c", 8), True) in mf2.at(calls[0][0])
-    ctx.ob("onCloseFrame(code, reasonRaw) dispatched for opcode 8", ok, "close dispatch changed", pcf.loc())
+            def default(f_, a_, k_=None):
+                if f_ == "self.onCloseFrame":
+                    seen.append(list(a_))
+                    return answer
+                if f_ == "struct.unpack" and len(a_) == 2:
+                    return [("u16", a_[0], a_[1])]
+                raise AnalysisError(f"call {f_} on the CLOSE path of processControlFrame is not modelled")
+            env = {"self": Sym("protocol"), "self.control_frame_data": [Buf(0, ll)] if ll else [], "self.current_frame.opcode": 8}
+            t = Tiny(env, default_call=default)
+            r = t.run(body)
+            cell = f"close payload of {ll} octet(s)"
+            want_code = ("u16", "!H", Buf(0, 2)) if ll >= 2 else None
+            want_reason = Buf(2, ll) if ll > 2 else None
+            if len(seen) != 1 or len(seen[0]) != 2:
+                probs.append(f"{cell}: onCloseFrame called {len(seen)} time(s)")
+                continue
+            c_, rs_ = seen[0]
+            okc = (c_ is None and want_code is None) or (isinstance(c_, tuple) and want_code is not None and c_[0] == "u16" and c_[1] in ("!H", ">H") and c_[2] == want_code[2])
+            okr = (rs_ is None and want_reason is None) or (isinstance(rs_, Buf) and want_reason is not None and rs_ == want_reason)
+            if not okc:
+                probs.append(f"{cell}: status code handed on is {c_}, expected {'the first two octets in network order' if want_code else 'none'}")
+            if not okr:
+                probs.append(f"{cell}: reason handed on is {rs_}, expected {'everything after the two status octets' if want_reason else 'none'}")
+            if answer and not (r[0] == "return" and r[1] is False):
+                probs.append(f"{cell}: onCloseFrame asked to stop processing but processControlFrame gives {r[0]} {r[1]}")
+        ctx.ob("processControlFrame: CLOSE payload split into (2-octet network-order code, rest as reason) by its length; dispatched to onCloseFrame [10 cells]",
+               not probs, "; ".join(probs[:2]), pcf.loc())
+    except AnalysisError as e:
+        raise AnalysisError(f"[C02.2-close-payload] processControlFrame outside the modelled subset: {e}")
 
 
 def _sink_test_returns(g, sink, want):
@@ -655,9 +694,20 @@ def rule_progress(ctx, rule_id="C02.7-complete-frames-need-no-further-octets"):
 
         def call_hook(call, mask, interp):
             t = norm.text(call)
-            return env.get(t, NotImplemented)
+            if t in env:
+                return env[t]
+            if norm.text(call.func) == "bool" and len(call.args) == 1 and not call.keywords:
+                return interp.truth(interp.eval(call.args[0], mask))
+            return NotImplemented
         v = Vec(n, res, attr_hook, call_hook)
         return v.truth(v.eval(expr, np.ones(n, dtype=bool)))
+    # roles, not names: the declared payload length is what the header branch stores as the frame's length (4th FrameHeader argument);
+    # the number of buffered octets is len(self.data), possibly held in a local
+    from .common import name_for
+    fh = [c for c in ast.walk(ast.Module(body=hdr, type_ignores=[])) if isinstance(c, ast.Call) and call_name(c) == "FrameHeader" and len(c.args) >= 4]
+    ctx.require(len(fh) == 1, "processData: FrameHeader(...) construction not found in the header branch")
+    PLN = norm.text(fh[0].args[3])
+    BLN = name_for(fn, "len(self.data)")
     # header branch: the return that follows self.onFrameBegin()
     rets = []
     for x in ast.walk(ast.Module(body=hdr, type_ignores=[])):
@@ -669,7 +719,7 @@ def rule_progress(ctx, rule_id="C02.7-complete-frames-need-no-further-octets"):
                         rets.append(b)
     ctx.require(len(rets) == 1, "processData: return after onFrameBegin() not found")
     try:
-        got = evaluate(rets[0].value, {"frame_payload_len": pl, "len(self.data)": dl, "buffered_len": dl})
+        got = evaluate(rets[0].value, {PLN: pl, "len(self.data)": dl, BLN: dl, "self.data": dl})
         want = (pl == 0) | (dl > 0)
         bad = np.nonzero(got != want)[0]
         ex = f"payload length {int(pl[bad[0]])}, {int(dl[bad[0]])} octets left in the buffer: returns {bool(got[bad[0]])}" if len(bad) else ""
@@ -682,7 +732,7 @@ def rule_progress(ctx, rule_id="C02.7-complete-frames-need-no-further-octets"):
     tail = [s for s in inside if isinstance(s, ast.Return)]
     ctx.require(len(tail) == 1, "processData: final return of the in-frame branch not found")
     try:
-        got = evaluate(tail[0].value, {"len(self.data)": dl, "buffered_len": dl})
+        got = evaluate(tail[0].value, {"len(self.data)": dl, BLN: dl, "self.data": dl})
         ctx.ob("after frame payload, processing continues iff octets are left", bool((got == (dl > 0)).all()), f"`{stmt_key(tail[0])}`", fn.loc(tail[0]))
     except AnalysisError as e:
         ctx.ob("after frame payload, processing continues iff octets are left", False, f"return expression not analysable: {e}", fn.loc(tail[0]))
